@@ -119,4 +119,25 @@ theorem C15_idempotent_instance :
     C15_same (expand (C15_planted C15_canon)) (some (C15_planted C15_canon)) = true := by
   decide +kernel
 
+/-! ### negation (known finding F15d): a field given by reference hides its neighbours from the expansion -/
+
+/-- `{'d': {'type': 'dict', 'schema': {'a': <definition of a>, 'c': {'validator': f}}}}` -/
+def C15_mixed (a : Val) : List (Key × Val) :=
+  [(.s "d", .dict [(.s "type", .str "dict"),
+                   (.s "schema", .dict [(.s "a", a), (.s "c", .dict [(.s "validator", .fn "f")])])])]
+
+def C15_mixed_expanded (a : Val) (name : String) : List (Key × Val) :=
+  [(.s "d", .dict [(.s "type", .str "dict"),
+                   (.s "schema", .dict [(.s "a", a), (.s "c", .dict [(.s name, .fn "f")])])])]
+
+set_option maxRecDepth 100000 in
+/-- with the field `a` defined inline the deprecated name beside it is renamed; with `a` defined
+    by a rules-set reference (a string) the sub-schema is taken for a list-type rule set and
+    the name stays — the real code then rejects the schema ('unknown rule') -/
+theorem C15_witness_reference_field :
+    C15_same (expand (C15_mixed (.dict [(.s "type", .str "integer")])))
+             (some (C15_mixed_expanded (.dict [(.s "type", .str "integer")]) "check_with")) = true ∧
+    C15_same (expand (C15_mixed (.str "rs"))) (some (C15_mixed_expanded (.str "rs") "validator")) = true := by
+  decide +kernel
+
 end Cerberus
